@@ -20,6 +20,7 @@ import (
 	"errors"
 	"io"
 	"reflect"
+	"strconv"
 	"strings"
 	"sync"
 	"time"
@@ -621,8 +622,13 @@ func readByteJSON(o interface{}) (typeByte byte, rest interface{}, err error) {
 		err = errors.New(gcmn.Fmt("Expected [Byte,?] len 2 but got len %v", len(oSlice)))
 		return
 	}
-	typeByte_, ok := oSlice[0].(float64)
-	typeByte = byte(typeByte_)
+	switch tb := oSlice[0].(type) {
+	case float64:
+		typeByte = byte(tb)
+	case json.Number:
+		f, _ := tb.Float64()
+		typeByte = byte(f)
+	}
 	rest = oSlice[1]
 	return
 }
@@ -806,6 +812,18 @@ func readReflectJSON(rv reflect.Value, rt reflect.Type, opts Options, o interfac
 		rv.SetString(str)
 
 	case reflect.Int64, reflect.Int32, reflect.Int16, reflect.Int8, reflect.Int:
+		if lit, isNum := o.(json.Number); isNum {
+			if i, perr := strconv.ParseInt(string(lit), 10, 64); perr == nil {
+				rv.SetInt(i) // exact for all 64 bits
+				return
+			}
+			f, perr := lit.Float64()
+			if perr != nil {
+				*err = perr
+				return
+			}
+			o = f
+		}
 		num, ok := o.(float64)
 		if !ok {
 			*err = errors.New(gcmn.Fmt("Expected numeric but got type %v", reflect.TypeOf(o)))
@@ -815,6 +833,18 @@ func readReflectJSON(rv reflect.Value, rt reflect.Type, opts Options, o interfac
 		rv.SetInt(int64(num))
 
 	case reflect.Uint64, reflect.Uint32, reflect.Uint16, reflect.Uint8, reflect.Uint:
+		if lit, isNum := o.(json.Number); isNum {
+			if u, perr := strconv.ParseUint(string(lit), 10, 64); perr == nil {
+				rv.SetUint(u) // exact for all 64 bits
+				return
+			}
+			f, perr := lit.Float64()
+			if perr != nil {
+				*err = perr
+				return
+			}
+			o = f
+		}
 		num, ok := o.(float64)
 		if !ok {
 			*err = errors.New(gcmn.Fmt("Expected numeric but got type %v", reflect.TypeOf(o)))
@@ -831,6 +861,14 @@ func readReflectJSON(rv reflect.Value, rt reflect.Type, opts Options, o interfac
 		if !opts.Unsafe {
 			*err = errors.New("Wire float* support requires `wire:\"unsafe\"`")
 			return
+		}
+		if lit, isNum := o.(json.Number); isNum {
+			f, perr := lit.Float64()
+			if perr != nil {
+				*err = perr
+				return
+			}
+			o = f
 		}
 		num, ok := o.(float64)
 		if !ok {
